@@ -737,10 +737,15 @@ pub trait StoreFor<T: Storable>: Configurable + private::StoreCallbacks<T> {
             //insert a mapping from the public ID to the internal numeric ID in the idmap
             if let Some(id) = item.id() {
                 //check if public ID does not already exist
-                if self.has(id) {
+                //(looked up in the id map itself: an id that merely looks like a temporary id must not escape this check)
+                let existing_handle = self
+                    .idmap()
+                    .and_then(|idmap| idmap.data.get(id).copied())
+                    .filter(|handle| matches!(self.store().get(handle.as_usize()), Some(Some(_))));
+                if let Some(existing_handle) = existing_handle {
                     //ok. the already ID exists, now is the existing item exactly the same as the item we're about to insert?
                     //in that case we can discard this error and just return the existing handle without actually inserting a new one
-                    let existing_item = self.get(id).unwrap();
+                    let existing_item = self.get(BuildItem::<T>::Handle(existing_handle)).unwrap();
                     if *existing_item == item {
                         return Ok(existing_item.handle().unwrap());
                     }
@@ -748,7 +753,7 @@ pub trait StoreFor<T: Storable>: Configurable + private::StoreCallbacks<T> {
                     if self.config().merge {
                         // is the existing item different but we are in merge mode? Then merge
                         // (note that merge is only supported for some Storables)
-                        let existing_item = self.get_mut(id).unwrap();
+                        let existing_item = self.get_mut(BuildItem::<T>::Handle(existing_handle)).unwrap();
                         existing_item.merge(item)?;
                         return Ok(existing_item.handle().unwrap());
                     } else {
